@@ -22,6 +22,8 @@ def node_defaults(n):
 def out_terms(n, args):
     f = fid(n)
     outs = n.get("outs", [])
+    if "ret" in n and len(outs) == 1:
+        return {outs[0]: T(n["ret"])}
     return {o: (f, i, args) for i, o in enumerate(outs)}
 
 
